@@ -18,8 +18,56 @@ fn rbytes(seed: u64, n: usize) -> Vec<u8> {
         .collect()
 }
 
+/// murmur3_32 (seed 0) as the cache uses it to choose a bucket; only used to *construct* keys that
+/// collide, the comparison itself is against Model.Cache
+fn murmur3_32(key: &[u8]) -> u32 {
+    let (c1, c2) = (0xcc9e2d51u32, 0x1b873593u32);
+    let mut h = 0u32;
+    let mut chunks = key.chunks_exact(4);
+    for c in &mut chunks {
+        let mut k = u32::from_le_bytes([c[0], c[1], c[2], c[3]]);
+        k = k.wrapping_mul(c1).rotate_left(15).wrapping_mul(c2);
+        h ^= k;
+        h = h.rotate_left(13).wrapping_mul(5).wrapping_add(0xe6546b64);
+    }
+    let rest = chunks.remainder();
+    if !rest.is_empty() {
+        let mut k = 0u32;
+        for (i, b) in rest.iter().enumerate() {
+            k |= (*b as u32) << (8 * i);
+        }
+        k = k.wrapping_mul(c1).rotate_left(15).wrapping_mul(c2);
+        h ^= k;
+    }
+    h ^= key.len() as u32;
+    h ^= h >> 16;
+    h = h.wrapping_mul(0x85ebca6b);
+    h ^= h >> 13;
+    h = h.wrapping_mul(0xc2b2ae35);
+    h ^= h >> 16;
+    h
+}
+
+/// `n` keys that fall into one cache bucket
+fn colliding_keys(seed: u64, n: usize) -> Vec<Vec<u8>> {
+    let target = (seed % 16384) as u32;
+    let mut out = Vec::new();
+    let mut i = 0u64;
+    while out.len() < n {
+        let k = format!("col-{seed}-{i}").into_bytes();
+        if murmur3_32(&k) % 16384 == target {
+            out.push(k);
+        }
+        i += 1;
+    }
+    out
+}
+
 pub fn run_case(seed: u64, nops: usize) -> (String, String, String) {
     let mut rng = Rng::new(seed);
+    // a third of the cases keep most of their keys in ONE bucket, so that the CLOCK sweep meets
+    // several evictable entries side by side
+    let crowd = if seed % 3 == 0 { colliding_keys(seed, 10) } else { Vec::new() };
     let stats = Arc::new(Statistics::new());
     let cache = ClockCache::new(stats.clone());
     // size_of::<CacheEntry>() measured through the public accounting
@@ -34,7 +82,8 @@ pub fn run_case(seed: u64, nops: usize) -> (String, String, String) {
     // an explicit remove is never followed by a hit (until the next insert of that key)
     let mut removed: std::collections::HashSet<Vec<u8>> = Default::default();
     for i in 0..nops {
-        let key = match rng.below(8) {
+        let key = match if crowd.is_empty() { rng.below(8) } else { 8 + rng.below(10) } {
+            8..=15 => crowd[rng.below(crowd.len() as u64) as usize].clone(),
             0 => vec![],
             1 => rbytes(rng.below(nkeys), 5),
             2 => rbytes(rng.below(nkeys), 13),
